@@ -294,6 +294,7 @@ PostitionedPart = typ.Tuple[int, int, str]
 
 def _iter_part_patterns(pattern: str) -> typ.Iterator[typ.Tuple[SortKey, PostitionedPart]]:
     used_fields: typ.Set[str] = set()
+    num_parts = 0
     for part_name, part_pattern in PART_PATTERNS.items():
         end_idx = 0
         while True:
@@ -303,10 +304,12 @@ def _iter_part_patterns(pattern: str) -> typ.Iterator[typ.Tuple[SortKey, Postiti
 
             field = PATTERN_PART_FIELDS[part_name]
             if field in used_fields:
-                named_part_pattern = f"(?P<{field}_{len(used_fields)}>{part_pattern})"
+                # the suffix is unique per occurrence (a part may be used more than twice)
+                named_part_pattern = f"(?P<{field}_{num_parts}>{part_pattern})"
             else:
                 named_part_pattern = f"(?P<{field}>{part_pattern})"
             used_fields.add(field)
+            num_parts += 1
 
             end_idx         = start_idx + len(part_name)
             sort_key        = (-end_idx, -len(part_name))
